@@ -294,6 +294,7 @@ class Interp:
             return self._loop(s, st)
         if isinstance(s, (ast.For, ast.AsyncFor)):
             st = self.ev(s.iter, st)
+            st = self._apply(s, st)  # the loop statement itself (before any iteration)
             return self._loop(s, st)
         if isinstance(s, (ast.With, ast.AsyncWith)):
             for it in s.items:
@@ -472,7 +473,7 @@ class Interp:
     # ------------------------------------------------------------ entry
     def run(self, fn, init) -> dict:
         """Run a function body from initial value(s); -> {kind: State}."""
-        st = {v: () for v in (init if isinstance(init, (set, frozenset, list)) else [init])}
+        st = {v: () for v in (init if isinstance(init, list) else [init])}
         sink: dict = {}
         self.sinks.append(sink)
         try:
@@ -485,6 +486,8 @@ class Interp:
                 res['raise:' + tag] = join(res.get('raise:' + tag, {}), ts)
         if 'break' in res or 'continue' in res:
             raise AnalysisError('break/continue escaped function body')
+        if not res:
+            raise AnalysisError(f'no exit state computed for {getattr(fn, "name", "?")} (vacuous analysis)')
         return res
 
 
